@@ -59,7 +59,7 @@ type c20Params struct {
 func c20Gen(tier string, seed int64) []fw.Case {
 	n := 1500
 	if tier == "thorough" {
-		n = 40000
+		n = 250000
 	}
 	var cs []fw.Case
 	for i := 0; i < 8; i++ {
